@@ -244,18 +244,20 @@ def run(prop: str, tier: str) -> int:
     fl_q = {"C02": ["str", "keyed", "int"], "C01": ["str", "keyed"], "C04": ["str", "dataclass"]}.get(prop, ["str"])
     pairs = stage_exhaustive(rep, props, label="ex:plain<=3x2", consts=K(max_nodes=3, d=2, ops=focus, emit=True),
                              flnames=fl_q if quick else PLAIN_FLAVOURS)
+    typed_ops = focus if not quick else [o for o in focus if o in ("add", "badpos", "add_node", "add_tree", "remove", "move")]
     stage_exhaustive(rep, props, label="ex:typed<=3x2",
-                     consts=K(max_nodes=3, d=2, typed=True, kinds=(0, 2), ops=focus, emit=True),
+                     consts=K(max_nodes=3, d=2, typed=True, kinds=(0, 2), ops=typed_ops, emit=True),
                      flnames=["str+typed"] if quick else ["str+typed", "dataclass+typed"])
+    ids_ops = [o for o in focus if o in (("add", "set_data", "add_node") if quick else ("add", "set_data", "add_node", "remove", "move"))]
     stage_exhaustive(rep, props, label="ex:ids<=3x2",
-                     consts=K(max_nodes=3, d=2, xids=(0, 11), ops=[o for o in focus if o in ("add", "set_data", "add_node", "remove", "move")],
-                              emit=True), flnames=["str"] if quick else ["str", "tuple"])
+                     consts=K(max_nodes=3, d=2, xids=(0, 11), ops=ids_ops, emit=True),
+                     flnames=["str"] if quick else ["str", "tuple"])
     stage_exhaustive(rep, props, label="ex:callback<=3x3", defdid="callback",
                      consts=K(max_nodes=3, d=3, ops=[o for o in focus if o in ("add", "set_data", "add_node", "remove", "move")],
                               emit=True), flnames=["callback"])
-    if prop in ("C04", "C01") or not quick:
+    if prop == "C04" or not quick:
         stage_exhaustive(rep, props, label="ex:meta<=2x2", mk=2,
-                         consts=K(max_nodes=2, d=2, meta_vals=2, meta_keys=2, ops=["add", "meta", "remove"], emit=True),
+                         consts=K(max_nodes=2, d=2, meta_vals=1 if quick else 2, meta_keys=2, ops=["add", "meta", "remove"], emit=True),
                          flnames=["str"])
     if not quick:
         pairs = stage_exhaustive(rep, props, label="ex:plain<=4x3", consts=K(max_nodes=4, d=3, ops=focus, emit=True),
